@@ -27,4 +27,16 @@ PROPS = {
         test_clauses=["bit-level equality of stored values on f64", "header values reach the defaults (load path)"],
         assumptions=["setter arguments finite (the property's quantifier)"],
     ),
+    "C02": dict(
+        rule="caller histories over {generate_step with buffer fperiod..3*fperiod, synthesized_frames, generate_all}: "
+             "exhaustive up to length 4 (thorough 5) on generators of 0..3 frames over the alphabet {step fp, step fp+1, step 3fp, query, finish}; "
+             "random histories on 0..12-frame random trajectories through the real Vocoder (stage 0, odd low-pass orders, voiced/unvoiced, beta 0/0.3); "
+             "real utterances of the bundled voice with overridden frame period. A class is (frame-count bucket, where finish happens: "
+             "fresh/mid/exhausted/none, number of accepted steps, number of exhausted steps); non-trivial = at least one accepted step and one op after it",
+        theorem_clauses=["history refinement to the cursor machine over the one-shot waveform (all histories, all buffer sizes)",
+                         "exhausted step returns 0 and leaves the buffer untouched", "generate_all returns the not-yet-produced suffix",
+                         "chunk concatenation = one-shot", "pinned-commit defect as a theorem about finish … false"],
+        test_clauses=["the real Vocoder yields exactly fperiod samples per frame and is deterministic (bitwise comparison with the one-shot waveform)"],
+        assumptions=["abstract vocoder: one frame yields fperiod samples (checked on the real vocoder by the correspondence)"],
+    ),
 }
